@@ -1,6 +1,6 @@
 /-
   Property C16 — durations, offsets, start and end times are arithmetically consistent.
-  Arithmetic is over exact eighths of a second (IEEE rounding of non-dyadic durations is not
+  Arithmetic is over exact microseconds (decimal durations with up to six decimals; IEEE rounding is not
   modelled; see DESIGN.md §8).
 -/
 import Mrm.Proofs.TimingP
@@ -71,7 +71,7 @@ theorem C16_view_consistent (d : Xml) (v : RoView) (h : roView d = .ok v) :
   view_consistent d v h
 
 /-- non-vacuity, with a REPEATED story ID: stories A (10 s), B (5 s), A (7 s) — the accessors return
-    and each story gets the sum of the durations before it (in eighths of a second), the second "A"
+    and each story gets the sum of the durations before it (in microseconds), the second "A"
     included (an ID-keyed table would have given both "A" stories the same offset) -/
 example :
     let dur (t : String) : Xml := .node "mosExternalMetadata" [] none none
@@ -83,7 +83,7 @@ example :
     (match roView d with
      | .ok v => v.stories.map (fun s => (s.id, s.offset))
      | .error _ => []) =
-      [(some "A", some 0), (some "B", some 80), (some "A", some 120)] := by
+      [(some "A", some 0), (some "B", some 10000000), (some "A", some 15000000)] := by
   decide
 
 end Mrm
